@@ -256,10 +256,41 @@ def fillet_curve(draw, nk, center, rlo, rhi, cw=False):
 
 
 @st.composite
+def arch_curve(draw, nk, center, rlo, rhi, cw=False, degree=2):
+    """rectangle topped by a parabolic (or cubic) arch whose chord is exactly
+    axis-parallel: a curved segment whose end points share one coordinate
+    (dy = 0 or dx = 0 along the chord), in the four axis orientations"""
+    snap = draw(snapper(nk if nk != "mixed" else "frac"))[0]
+    w = rlo * (0.8 + 0.6 * draw(st.floats(0, 1)))
+    h = rlo * (0.5 + 0.5 * draw(st.floats(0, 1)))
+    k = (rhi - rlo) * (0.3 + 0.6 * draw(st.floats(0, 1))) + 0.2 * rlo
+    a, b, c, d = (-w / 2, -h / 2), (w / 2, -h / 2), (w / 2, h / 2), (-w / 2, h / 2)
+    if degree == 2:
+        top = [c, (0.0, h / 2 + 2 * k), d]
+    else:
+        top = [c, (w / 4, h / 2 + 2 * k), (-w / 2, h / 2 + k), d]
+    rot = draw(st.integers(0, 3))
+
+    def place(p):
+        x, y = p
+        for _ in range(rot):
+            x, y = -y, x
+        return snap((x + center[0], y + center[1]))
+
+    pa, pb, pc, pd = place(a), place(b), place(c), place(d)
+    arc = [pc] + [place(q) for q in top[1:-1]] + [pd]
+    curve = [[pa, pb], [pb, pc], arc, [pd, pa]]
+    assume(rg.curve_area(curve) > 0 and len({pa, pb, pc, pd}) == 4)
+    return rg.curve_reverse(curve) if cw else curve
+
+
+@st.composite
 def simple_curve(draw, nk="int", degrees=(1,), center=(0.0, 0.0), rlo=6.0, rhi=14.0,
                  cw=False, templates=True, nseg=(3, 7)):
     if 2 in tuple(degrees) and nseg[0] <= 3 and draw(st.integers(0, 7)) == 0:
         return draw(fillet_curve(nk, center, rlo, rhi, cw))
+    if (2 in tuple(degrees) or 3 in tuple(degrees)) and nseg[0] <= 4 and draw(st.integers(0, 7)) == 0:
+        return draw(arch_curve(nk, center, rlo, rhi, cw, 2 if 2 in tuple(degrees) else 3))
     if templates and tuple(degrees) == (1,) and center == (0.0, 0.0) and draw(st.integers(0, 3)) == 0:
         return draw(template_polygon(nk, cw))
     return draw(star_curve(nk, center, rlo, rhi, nseg, degrees, cw))
